@@ -15,7 +15,8 @@ META = {
             "is proved, with fully symbolic upward coefficients c_nk and log L, to satisfy f(g(a)) = a + O(a^5) and g(f(a)) = a + "
             "O(a^5) for the coupling decoupling series; the POLE/MSBAR coupling tables and the MSbar mass table are pushed "
             "through compute_matching_coeffs_down and composed likewise (mass: multiplicative inverse through a^3)."
-            " The mass decoupling as APPLIED by msbar_masses.evolve upwards and downwards across one threshold (recording coupling, one symbol per flavour number) composes to the identity through the implemented order.",
+            " The mass decoupling as APPLIED by msbar_masses.evolve upwards and downwards across one threshold (recording coupling, one symbol per flavour number) composes to the identity through the implemented order."
+            " Along paths with two thresholds (and for one coupling object asked in both directions) every wall uses the table of its own flavour number (shared with C16).",
     "note": "Formula level, all matrices/coefficients symbolic; series coefficients exact in F_p at random points (error < 1e-30).",
     "technique": "partial evaluation to formulas + truncated series over F_p (valuation test) + polynomial identity testing",
     "engine": "sa",
@@ -126,6 +127,11 @@ def run(chk):
     _applied_pair(chk, src)
     _applied_mass_pair(chk, src)
     chk.floor("obligations", n_ob, 32 + 2 + 2 + 1)
+    # along a path with two thresholds (and for one coupling object asked in both directions) every wall is matched with the table of
+    # ITS flavour number - with the coefficients of another wall the downward step is not the inverse of the upward one at N3LO
+    from .c16 import tables_per_wall
+
+    tables_per_wall(chk, src, rule="downward-table-is-the-inverse-at-every-wall")
     chk.note(files=["src/eko/evolution_operator/quad_ker.py", "src/eko/couplings.py", "src/eko/msbar_masses.py"], obligations=n_ob)
     chk.explanation = "Inverse relations decided as identities / valuations for symbolic non-commuting matrices and coefficients."
 
